@@ -653,12 +653,14 @@ async fn scenario(name: &str) -> Result<(), String> {
                 return Err(format!("entries across the rollover at {}: {:?} are returned, {:?} were acknowledged", rolled_at, idx, want));
             }
         }
-        "truncate_behind_snapshot_pointer" | "truncate_behind_installed_snapshot" => {
+        "truncate_behind_snapshot_pointer" | "truncate_behind_installed_snapshot" | "truncate_at_split_off_behind_snapshot_pointer" => {
             // C03 at the level of the log manager: the log catalogue starts with a snapshot pointer file (written by the second
             // compaction, or by a snapshot installation); a conflict truncation inside the current file must remove exactly the suffix
             let node;
             let base: u64;
-            if name == "truncate_behind_snapshot_pointer" {
+            // cut right behind the pointer (the split-off position of the current file) or one entry further
+            let keep: u64 = if name == "truncate_at_split_off_behind_snapshot_pointer" { 0 } else { 1 };
+            if name != "truncate_behind_installed_snapshot" {
                 node = leader; // entries 1..=3, first compaction done
                 commit(&node, 4, config_set("a.yaml", "a: 4", 4)).await;
                 commit(&node, 5, config_set("a.yaml", "a: 5", 5)).await;
@@ -682,20 +684,22 @@ async fn scenario(name: &str) -> Result<(), String> {
             if before.len() != 3 {
                 return Err(format!("MODEL: the scenario's own set-up did not take: {} entries behind index {}", before.len(), base));
             }
-            // the leader's log conflicts from base + 2 on
-            node.store.delete_logs_from(base + 2, None).await.map_err(|e| format!("delete_logs_from fails: {}", e))?;
+            // the leader's log conflicts from base + 1 + keep on
+            let cut = base + 1 + keep;
+            node.store.delete_logs_from(cut, None).await.map_err(|e| format!("delete_logs_from fails: {}", e))?;
             tokio::time::sleep(Duration::from_millis(100)).await;
             let after = node.store.get_log_entries(base + 1, base + 4).await.map_err(|e| format!("query after the truncation fails: {}", e))?;
             let idx: Vec<u64> = after.iter().map(|e| e.index).collect();
-            if idx != vec![base + 1] {
+            let want: Vec<u64> = (base + 1..cut).collect();
+            if idx != want {
                 return Err(format!(
-                    "delete-from {} with a snapshot pointer file (index {}) at the head of the log catalogue: entries {:?} are still returned, only {} was acknowledged and not removed",
-                    base + 2, base, idx, base + 1
+                    "delete-from {} with a snapshot pointer file (index {}) at the head of the log catalogue: entries {:?} are still returned, {:?} were acknowledged and not removed",
+                    cut, base, idx, want
                 ));
             }
-            let e = Entry { term: 2, index: base + 2, payload: EntryPayload::Normal(EntryNormal { data: config_set("b.yaml", "b2", base + 2) }) };
-            node.store.append_entry_to_log(&e).await.map_err(|e| format!("the append at the cut index {} is refused after the truncation: {}", base + 2, e))?;
-            let last = node.store.get_log_entries(base + 2, base + 3).await.map_err(|e| format!("query fails: {}", e))?;
+            let e = Entry { term: 2, index: cut, payload: EntryPayload::Normal(EntryNormal { data: config_set("b.yaml", "b2", cut) }) };
+            node.store.append_entry_to_log(&e).await.map_err(|e| format!("the append at the cut index {} is refused after the truncation: {}", cut, e))?;
+            let last = node.store.get_log_entries(cut, cut + 1).await.map_err(|e| format!("query fails: {}", e))?;
             if last.len() != 1 || last[0].term != 2 {
                 return Err(format!("the entry appended at the cut index is not the one returned: {:?}", last.iter().map(|e| (e.index, e.term)).collect::<Vec<_>>()));
             }
